@@ -774,6 +774,15 @@ func (g *vfGW) apply(evFull string) {
 			c.addr = vfIPAddr(arg(2))
 		}
 		g.w.mu.Unlock()
+	case "meshpeers":
+		// meshpeers:T -- the partial-messages extension asks the router whom to send to (partialmessages.Router,
+		// the seam the extension publishes through); it asks for joined and for fanout topics alike
+		if g.n.gs != nil {
+			g.n.eval(func() {
+				for range (partialMessageRouter{g.n.gs}).MeshPeers(arg(1)) {
+				}
+			})
+		}
 	case "adddirect":
 		// adddirect:P / rmdirect:P -- the application tags / un-tags a peer as direct at run time
 		if err := g.n.ps.AddDirectPeer(peer.AddrInfo{ID: g.pid(arg(1))}); err != nil {
